@@ -255,28 +255,42 @@ def writeTransition (previous : Option Instant) (value : Instant) : R Bytes := d
     let m ← writeCount MARKER_RAW
     .ok (m ++ writeInt64 payload)
 
-/-- `read_zone_interval_transition(previous)` -/
-def readTransition (previous : Option Instant) (bs : Bytes) : R (Instant × Bytes) := do
-  let (value, r) ← readCount bs
+/-- marker 2: a raw 64-bit tick count (`Instant.from_unix_time_ticks` range-checks: `ValueError`) -/
+def readRawTransition (r : Bytes) : R (Instant × Bytes) := do
+  let (t, r) ← readInt64 r
+  let i ← Instant.fromUnixTicks t
+  .ok (i, r)
+
+/-- `previous + Duration.from_hours(value)` (no previous → `InvalidPyodaDataError`; beyond the end of time →
+    `OverflowError`) -/
+def readHoursTransition (previous : Option Instant) (value : Int) (r : Bytes) : R (Instant × Bytes) :=
+  match previous with
+  | none => .error .invalidData
+  | some p => do
+    let d ← Duration.fromHours value
+    let i ← p.plus d
+    .ok (i, r)
+
+/-- `_EPOCH_FOR_MINUTES_SINCE_EPOCH + Duration.from_minutes(value)` -/
+def readMinutesTransition (value : Int) (r : Bytes) : R (Instant × Bytes) := do
+  let d ← Duration.fromMinutes value
+  let i ← EPOCH1800.plus d
+  .ok (i, r)
+
+/-- `read_zone_interval_transition(previous)` after the count has been read -/
+def readTransitionBody (previous : Option Instant) (value : Int) (r : Bytes) : R (Instant × Bytes) :=
   if value < MIN_HOURS then
     if value = MARKER_MIN then .ok (Instant.beforeMin, r)
     else if value = MARKER_MAX then .ok (Instant.afterMax, r)
-    else if value = MARKER_RAW then do
-      let (t, r) ← readInt64 r
-      let i ← Instant.fromUnixTicks t
-      .ok (i, r)
+    else if value = MARKER_RAW then readRawTransition r
     else .error .invalidData
-  else if value < MIN_MINUTES then
-    match previous with
-    | none => .error .invalidData
-    | some p => do
-      let d ← Duration.fromHours value
-      let i ← p.plus d
-      .ok (i, r)
-  else do
-    let d ← Duration.fromMinutes value
-    let i ← EPOCH1800.plus d
-    .ok (i, r)
+  else if value < MIN_MINUTES then readHoursTransition previous value r
+  else readMinutesTransition value r
+
+/-- `read_zone_interval_transition(previous)` -/
+def readTransition (previous : Option Instant) (bs : Bytes) : R (Instant × Bytes) := do
+  let (value, r) ← readCount bs
+  readTransitionBody previous value r
 
 /-! ## strings and dictionaries -/
 
